@@ -366,7 +366,7 @@ func TestC17Large(t *testing.T) {
 		stationIDs bool
 	}
 	var combos []combo
-	for _, n := range []int{9000, 20000, 40000} {
+	for _, n := range []int{9001, 20003, 40009} {
 		combos = append(combos, combo{n, "COMPLEX", true}, combo{n, "COMPLEX", false}, combo{n, "STATION", true}, combo{n, "NONE", false})
 	}
 	for _, k := range combos {
